@@ -29,7 +29,7 @@ RULE = ("(a) streams of 5-40 generated packets mixing several APIDs x {recognise
         "(solo = fresh packet from the bytes, and also the framer's own raw packet objects each wrapped and parsed twice); "
         "(b) schedules: ALL 1680 interleavings of 3 generators x 3 items, round-robin and seeded random schedules for 2-6 "
         "generators x up to 40 items, 4 real threads each owning a generator over the shared definition with "
-        "sys.setswitchinterval(1e-6); (c) deep snapshot + to_xml bytes before/after and a __setattr__ write log. "
+        "sys.setswitchinterval(1e-6), a generator created with a root_container_name override advanced together with a default one; (c) deep snapshot + to_xml bytes before/after and a __setattr__ write log. "
         "distinct_nontrivial = distinct (check kind, option combination, packet-class mix, schedule class) signatures; "
         "a single-generator run over recognised packets with default options is trivial and excluded.")
 ASSUMPTIONS = ["packets on which solo parsing raises an exception other than UnrecognizedPacketTypeError are not put into streams "
